@@ -25,6 +25,7 @@ pub enum LAct {
 pub struct LEnv {
     pub log: Ghost<Seq<LAct>>,
     pub closed: Ghost<bool>,                 // throttle_collect reported the event channel closed (Ok(None))
+    pub created: Ghost<Set<TaskH>>,          // the tasks of every job any action handler call has created so far
 }
 pub struct Config { pub action_handler: HandlerFn }
 pub struct ArcConfig { pub c: Config }
@@ -37,7 +38,8 @@ impl Instant { #[verifier::external_body] pub fn now() -> Instant { unimplemente
 // throttle_collect (under contract in unit `worker`): Ok(Some(batch)) / Ok(None) when the event channel is closed / Err when the error channel is
 #[verifier::external_body]
 pub fn throttle_collect(config: &ArcConfig, events: EvRx, errors: ErrTx, last: Instant, env: &mut LEnv) -> (r: Result<Option<Vec<Event>>, CriticalError>)
-    ensures r is Ok && r->Ok_0 is Some ==> final(env).log@ == old(env).log@.push(LAct::Batch(ids(r->Ok_0->Some_0@))) && final(env).closed == old(env).closed,
+    ensures final(env).created == old(env).created,
+        r is Ok && r->Ok_0 is Some ==> final(env).log@ == old(env).log@.push(LAct::Batch(ids(r->Ok_0->Some_0@))) && final(env).closed == old(env).closed,
         r is Ok && r->Ok_0 is None ==> final(env).log == old(env).log && final(env).closed@,
         r is Err ==> final(env).log == old(env).log && final(env).closed == old(env).closed,
 { unimplemented!() }
@@ -72,18 +74,19 @@ pub uninterp spec fn vx_pos(s: Seq<(Id, Job)>, k: Id) -> int;
 #[verifier::external_body]
 pub fn vx_dead_jobs(jobs: &JobMap) -> (r: Vec<Id>) ensures forall|i: int| 0 <= i < r@.len() ==> jobs.m@.contains_key(#[trigger] r@[i]) { unimplemented!() }
 // action::Handler as the worker sees it
-pub struct Handler { pub events: ArcEvents, pub new: Vec<(Id, (Job, TaskH))>, pub quit: Option<QuitManner> }
-impl Handler {
-    #[verifier::external_body]
-    pub fn new(events: ArcEvents, jobs: JobMap) -> (r: Handler) ensures r.events.v == events.v, r.new@.len() == 0, r.quit is None { unimplemented!() }
-}
+pub struct Handler { pub events: ArcEvents, pub extant: JobMap, pub new: Vec<(Id, (Job, TaskH))>, pub quit: Option<QuitManner> }
+// (Handler::new is an item of the unit: extracted and proved)
 pub enum ActionReturn { Sync(Handler), Async(Handler) }     // Async carries the future's output (R1 drops the await)
+pub open spec fn vx_action(r: ActionReturn) -> Handler { match r { ActionReturn::Sync(a) => a, ActionReturn::Async(a) => a } }
 pub struct HandlerFn;
 impl HandlerFn {
     // config.action_handler.call(action): arbitrary user code; may create jobs and ask to quit
     #[verifier::external_body]
     pub fn call(&self, action: Handler, env: &mut LEnv) -> (r: ActionReturn)
         ensures final(env).log@ == old(env).log@.push(LAct::Handler(action.events.v@)), final(env).closed == old(env).closed,
+            final(env).created@ =~= old(env).created@.union(tasks_all(vx_action(r).new@)),
+            // `new` is a HashMap keyed by job id: each id once
+            forall|i: int, j: int| 0 <= i < j < vx_action(r).new@.len() ==> (#[trigger] vx_action(r).new@[i]).0 != (#[trigger] vx_action(r).new@[j]).0,
     { unimplemented!() }
 }
 // LateJoinSet
@@ -96,12 +99,12 @@ impl LateJoinSet {
     pub fn insert(&mut self, t: TaskH) ensures final(self).tasks@ == old(self).tasks@.insert(t), final(self).quit_tasks == old(self).quit_tasks { unimplemented!() }
     #[verifier::external_body]
     pub fn spawn(&mut self, t: VxQuitJobTask, env: &mut LEnv)
-        ensures final(env).log@ == old(env).log@.push(LAct::SpawnQuitTask(t.job, t.signal, t.grace)), final(env).closed == old(env).closed,
+        ensures final(env).log@ == old(env).log@.push(LAct::SpawnQuitTask(t.job, t.signal, t.grace)), final(env).closed == old(env).closed, final(env).created == old(env).created,
             final(self).quit_tasks@ == old(self).quit_tasks@ + 1, final(self).tasks == old(self).tasks { unimplemented!() }
     // join_all().await: returns when every task of the set has finished
     #[verifier::external_body]
     pub fn join_all(&mut self, env: &mut LEnv)
-        ensures final(env).log@ == old(env).log@.push(LAct::JoinAll(old(self).quit_tasks@, old(self).tasks@)), final(env).closed == old(env).closed { unimplemented!() }
+        ensures final(env).log@ == old(env).log@.push(LAct::JoinAll(old(self).quit_tasks@, old(self).tasks@)), final(env).closed == old(env).closed, final(env).created == old(env).created { unimplemented!() }
 }
 pub struct VxIter<T> { pub v: Ghost<Seq<T>>, pub pos: Ghost<int> }
 #[verifier::external_body]
